@@ -670,6 +670,21 @@ let run_c14 ic =
              [Printf.sprintf "input schema=%S version=%S prerelease=%S metadata=%S" (implode schema) (implode v) (implode pre) (implode meta);
               Printf.sprintf "impl  -> %S %S %S" (implode ov) (implode opre) (implode ometa);
               Printf.sprintf "model -> %S %S %S" (implode mv) (implode mp) (implode mm)]
+       | "vpkg" ->
+         if t.(3) = "err" then incr n_err else begin
+           incr n;
+           let fmt = unhexs t.(2) in
+           let schema, v, pre, meta, obs = unhex t.(4), unhex t.(5), unhex t.(6), unhex t.(7), unhexs t.(8) in
+           let ((mv, mp), mm) = split_version schema v pre meta in
+           let mi = { mi_s = [(explode "version", mv); (explode "prerelease", mp); (explode "version_metadata", mm)]; mi_l = []; mi_f = []; mi_n = [] } in
+           let want = implode (if fmt = "rpm" then rpm_version mi else deb_version mi) in
+           if want <> obs then begin
+             incr n_dis; incr n_fail;
+             report (t.(1) ^ "/" ^ fmt) false [if mv = v && mp = pre && mm = meta then "verbatim" else "split"] []
+               [Printf.sprintf "input schema=%S version=%S prerelease=%S metadata=%S" (implode schema) (implode v) (implode pre) (implode meta);
+                Printf.sprintf "the %s package states version %S; the components compose to %S" fmt obs want]
+           end
+         end
        | "vorder" ->
          if t.(3) = "err" then incr n_err else begin
            incr n;
